@@ -1,7 +1,21 @@
+// Package c10 decides C10 (peer failure or removal re-homes under-replicated
+// pins once and drops none; expired pins are unpinned by exactly one peer) by
+// exhaustive enumeration of a bounded input space on real ipfscluster.Cluster
+// peers inside testing/synctest bubbles: n real peers share a recording
+// in-memory consensus (agreeing peerset, everybody trusted), each has an
+// injectable monitor (real metrics.Store, harness-fed alert channel) and the
+// real allocator. The oracle is written from the property text
+// (oracle_test.go).
 package c10
 
 import (
+	"encoding/json"
+	"fmt"
+	"os"
+	"strconv"
+	"strings"
 	"testing"
+	"time"
 
 	"verif/harness/lib/ev"
 )
@@ -9,6 +23,170 @@ import (
 var R *ev.Run
 
 func TestMain(m *testing.M) {
+	// "exploration": the decided space is a finite product of inputs (pinsets x
+	// peersets x failed peer x metric pictures x configuration x trigger), each
+	// point executed once on the real code and judged; there is no state graph
+	// and no transition relation to explore, so "model_checking" would overstate it.
 	R = ev.New("C10", "exploration")
+	R.Rule("one evaluation = one case (peerset, failed/removed peer, pinset, metric picture, configuration flags, trigger, shared|snapshot pinset) executed on real Cluster peers in a bubble until quiescence and judged by the text oracle; cases are enumerated by nested loops over the stated alphabets (no sampling); a case is non-trivial when the failed peer holds at least one pin of the pinset (expiry: at least one pin is expired); distinct_nontrivial counts distinct (configuration, trigger, per-pin class: kind/|alloc|/factors/held/healthy holders/candidates/expectation, observed outcome) signatures")
+	R.Assume("members agree on the peerset and trust each other (the property's precondition): one in-memory consensus state shared by all peers; mode 'snapshot' gives every peer a private copy of the same pinset, i.e. every peer decides before any other peer's write becomes visible")
+	R.Assume("every survivor's monitor holds the same metric picture; alerts are injected by the harness (when an alert is raised is C09's subject); the failed peer runs no alert handler")
+	R.Assume("consensus writes succeed and are applied immediately to the state they are logged to; pin tracker and IPFS are not involved (NoTrack)")
+	R.Assume("failure cases use at most 3 pins per pinset, replication factors <= 3, peersets of 1..5 peers (quick) / 1..8 (thorough); identities are fixed Ed25519 keys clus.Key(base+i)")
+	R.Assume("fake clock (testing/synctest): no time passes during a case, metric expiry and pin expiry are fixed relative to the frozen instant")
 	ev.Main(m.Run, R)
+}
+
+type unit struct {
+	name string
+	run  func(t *testing.T, name string)
+}
+
+func fs(n int, f string) []int {
+	if f != "*" {
+		x, _ := strconv.Atoi(f)
+		return []int{x}
+	}
+	var l []int
+	for i := 0; i < n; i++ {
+		l = append(l, i)
+	}
+	return l
+}
+
+// units lists the work units of the tier, biggest first.
+func units() []unit {
+	var us []unit
+	maxN := 5
+	if ev.Thorough() {
+		maxN = 8
+	}
+	addNF := func(kind string, n int, f string, run func(t *testing.T, name string, n, f int)) {
+		name := fmt.Sprintf("%s|n=%d|f=%s", kind, n, f)
+		us = append(us, unit{name, func(t *testing.T, name string) {
+			for _, x := range fs(n, f) {
+				run(t, name, n, x)
+			}
+		}})
+	}
+	single := func(t *testing.T, name string, n, f int) { runSingle(t, name, n, f) }
+	pinsets3 := func(t *testing.T, name string, n, f int) { runPinsets(t, name, n, f, 3) }
+	// biggest first
+	for n := maxN; n >= 4; n-- {
+		for f := 0; f < n; f++ {
+			addNF("single", n, strconv.Itoa(f), single)
+		}
+	}
+	for n := maxN; n >= 3; n-- {
+		for f := 0; f < n; f++ {
+			addNF("pinsets", n, strconv.Itoa(f), pinsets3)
+		}
+	}
+	addNF("pinsets", 2, "*", pinsets3)
+	for n := 3; n >= 1; n-- {
+		addNF("single", n, "*", single)
+	}
+	// closest-peer partition on alternative identity sets
+	nsets, salts, pmax := 6, 8, 8
+	if ev.Thorough() {
+		nsets, salts = 20, 24
+	}
+	var ns []int
+	for n := 2; n <= pmax; n++ {
+		ns = append(ns, n)
+	}
+	for k := 0; k <= nsets; k++ {
+		base := 100 * k
+		us = append(us, unit{fmt.Sprintf("partition|ids=%d", base), func(t *testing.T, name string) { runPartition(t, name, base, ns, salts) }})
+	}
+	dmax := 4
+	if ev.Thorough() {
+		dmax = 6
+	}
+	us = append(us, unit{"disabled-ping", func(t *testing.T, name string) { runDisabledPing(t, name, dmax) }})
+	for n := 1; n <= maxN; n++ {
+		bases := []int{0, 100}
+		es := 2
+		if ev.Thorough() {
+			bases = []int{0, 100, 200, 300, 400}
+			es = 4
+		}
+		us = append(us, unit{fmt.Sprintf("expiry|n=%d", n), func(t *testing.T, name string) { runExpiry(t, name, n, bases, es) }})
+	}
+	return us
+}
+
+// TestExplore runs every unit in a child process (a panic inside a Cluster
+// goroutine must become a violation, not a dead check), 4 at a time.
+func TestExplore(t *testing.T) {
+	if p := os.Getenv("VERIF_REPLAY"); p != "" {
+		replay(t, p)
+		return
+	}
+	us := units()
+	if u := ev.ChildUnit(); u != "" {
+		for _, x := range us {
+			if x.name == u {
+				x.run(t, x.name)
+				return
+			}
+		}
+		t.Fatalf("unknown unit %q", u)
+	}
+	only := os.Getenv("C10_UNIT")
+	var names []string
+	for _, x := range us {
+		if only == "" || strings.HasPrefix(x.name, only) {
+			names = append(names, x.name)
+		}
+	}
+	per := 6 * time.Minute
+	if ev.Thorough() {
+		per = 60 * time.Minute
+	}
+	R.Note("units", len(names))
+	R.RunChildren("TestExplore", names, 4, per)
+}
+
+// replay re-executes the case stored in a replay artefact and prints the verdicts.
+func replay(t *testing.T, path string) {
+	b, err := os.ReadFile(path)
+	if err != nil {
+		t.Fatal(err)
+	}
+	var art struct {
+		Key    string `json:"key"`
+		Detail struct {
+			Case   *caseIn     `json:"case"`
+			Expiry *expiryCase `json:"expiry_case"`
+		} `json:"detail"`
+	}
+	if err := json.Unmarshal(b, &art); err != nil {
+		t.Fatal(err)
+	}
+	sec := R.Sec("replay")
+	switch {
+	case art.Detail.Case != nil:
+		c := art.Detail.Case
+		bubble(t, c.IDBase, c.N, c.Disable, c.Follower, func(s *sim) {
+			o := s.runAlertCase(c)
+			fmt.Printf("REPLAY %s\n  calls: %+v\n", art.Key, o.Calls)
+			for _, ps := range c.Pins {
+				fmt.Printf("  %s before: %s\n  %s after:  %s\n", ps.Label, o.Before[ps.Label].sig(), ps.Label, o.After[ps.Label][0].sig())
+			}
+			evalCase(sec, c, o)
+		})
+	case art.Detail.Expiry != nil:
+		c := art.Detail.Expiry
+		bubble(t, c.IDBase, c.N, c.Disable, c.Follower, func(s *sim) {
+			o, specs := s.runExpiryCase(c)
+			fmt.Printf("REPLAY %s\n  calls: %+v\n", art.Key, o.Calls)
+			R.Eval(sec, art.Key, true)
+			for _, v := range judgeExpiry(c, o, specs) {
+				R.Violation(v.Key, map[string]interface{}{"expiry_case": c, "expected": v.Expect, "observed": v.Got, "log_calls": o.Calls})
+			}
+		})
+	default:
+		t.Fatalf("no case in %s", path)
+	}
 }
